@@ -153,6 +153,19 @@ func c19objects() []c19obj {
 				{"SetReadDeadline", func() { _ = b.SetReadDeadline(zzvsched.Now().Add(time.Millisecond)) }},
 			}
 		}},
+		{name: "packetio.Buffer, full size-limited ring", setup: func() []c19op {
+			// a ring of 41 bytes that is full: a write re-uses the bytes a read has just released
+			b := packetio.NewBuffer()
+			b.SetLimitSize(40)
+			_, _ = b.Write(make([]byte, 16))
+			_, _ = b.Write(make([]byte, 16))
+			return []c19op{
+				{"Read", func() { _, _ = b.Read(make([]byte, 32)) }},
+				{"Write", func() { _, _ = b.Write(make([]byte, 16)) }},
+				{"Read+Write", func() { _, _ = b.Read(make([]byte, 32)); _, _ = b.Write(make([]byte, 10)) }},
+				{"Size", func() { _ = b.Size() }},
+			}
+		}},
 		{name: "deadline.Deadline", setup: func() []c19op {
 			d := deadline.New()
 			d.Set(zzvsched.Now().Add(time.Millisecond))
@@ -200,6 +213,10 @@ func c19objects() []c19obj {
 					if c, err := n1.ListenUDP("udp", &net.UDPAddr{IP: net.ParseIP("10.0.0.1"), Port: 0}); err == nil {
 						_ = c.Close()
 					}
+				}},
+				{"router.AddNet", func() {
+					n3, _ := vnet.NewNet(&vnet.NetConfig{StaticIPs: []string{"10.0.0.3"}})
+					_ = r.AddNet(n3)
 				}},
 			}
 		}},
@@ -319,7 +336,7 @@ func c19objects() []c19obj {
 	}
 }
 
-func c19counts() []int { return []int{6, 6, 6, 8, 4, 3, 8, 5, 3, 2} }
+func c19counts() []int { return []int{6, 4, 6, 6, 9, 4, 3, 8, 5, 3, 2} }
 
 func init() {
 	register(&Check{ID: "C19", ShardByScenario: true,
@@ -338,7 +355,7 @@ func init() {
 				}
 				for i := 0; i < n; i++ {
 					for j := i; j < n; j++ {
-						if i == j && tier == "quick" && (oi == 3 || oi == 6 || oi == 7) {
+						if i == j && tier == "quick" && (oi == 4 || oi == 7 || oi == 8) {
 							continue // same operation twice on the three largest families: thorough only
 						}
 						out = append(out, c19scenario(o, []int{i, j}, bound))
@@ -352,7 +369,7 @@ func init() {
 			}
 			return out
 		},
-		Rule: "programs: for each object (packet buffer, deadline, dpipe, vnet socket + running router, NAT router under traffic, token bucket filter, delay+loss filter, UDP listener + connection, UDP listener with batch writes, two independent networks) every unordered pair (thorough: also each operation with itself and selected triples) of its concurrent-safe operations runs in separate threads after a sequential set-up; every schedule within the deviation bound runs under the Go race detector with a scheduler hand-off invisible to it; a violation is a detector report whose two accesses are both in repository code",
+		Rule: "programs: for each object (packet buffer, packet buffer with a full size-limited ring, deadline, dpipe, vnet socket + running router, NAT router under traffic, token bucket filter, delay+loss filter, UDP listener + connection, UDP listener with batch writes, two independent networks) every unordered pair (thorough: also each operation with itself and selected triples) of its concurrent-safe operations runs in separate threads after a sequential set-up; every schedule within the deviation bound runs under the Go race detector with a scheduler hand-off invisible to it; a violation is a detector report whose two accesses are both in repository code",
 		Assumptions: []string{"the race detector keeps a bounded shadow history per memory word; the harnesses are short, so eviction is unlikely but possible",
 			"operations documented as construction-only (TBFQueueSizeInBytes, Bridge.SetLossChance) are not in the alphabet",
 			"happens-before edges of mutex/rwmutex/waitgroup/once/channel/timer/go are re-created for the detector by the shim (runtime.RaceAcquire/Release); the real channel, atomic and go operations are executed by the thread itself"}})
